@@ -13,7 +13,7 @@ EXTRA_IMPORTS = (dispenv.DISP_IMPORTS + ce.CLIENT_IMPORTS + re_.RETRY_IMPORTS
                  + 'From PJ Require Import Model.EndToEnd Corr.DispOk Corr.C07 Corr.C08.\n')
 RULE = ('the request corpora of C01, C02, C03 and C12 (texts x configurations) dispatched through BOTH dispatchers (for a third of them also through the asynchronous dispatcher serving plain, non-coroutine functions); the scripted '
         'transport corpora of C08, C09 and C19 and the loop-back corpus of C07 driven through BOTH clients (for C07 also both '
-        'dispatchers); every pair is compared with the single model and with each other. quick: a seeded sample of each corpus; '
+        'dispatchers); every pair is compared with the single model and with each other; clients whose tracers raise from a hook (begin / end / error, first / middle / last tracer) are compared with each other only. quick: a seeded sample of each corpus; '
         'thorough: the full quick corpora plus samples of the thorough ones. distinct = distinct underlying case with the kind flag '
         'erased; every pair is non-trivial')
 EXHAUSTIVE = {'quick': False, 'thorough': False}
@@ -81,6 +81,12 @@ def generate(seed, tier):
             if k not in seen7:
                 seen7.add(k)
                 cases.append({'src': 'c07', 'c': cc})
+    # user-supplied tracers that raise from one of their hooks: no model says what must happen then, but both halves must do the same
+    for req in ('single', 'batch', 'notification'):
+        for first in (['ok'], ['code', -32000], ['exc', 0]):
+            for bad in (0, 1, 2):
+                for hook in ('begin', 'end', 'error'):
+                    cases.append({'src': 'rawtr', 'c': {'req': req, 'script': [first, ['ok']], 'bad': bad, 'hook': hook}})
     return cases
 
 
@@ -88,6 +94,8 @@ MODS = {'c01': c01, 'c02': c02, 'c03': c03, 'c12': c12, 'c08': c08, 'c09': c09, 
 
 
 def observe(case):
+    if case['src'] == 'rawtr':
+        return (observe_raw(case['c'], False), observe_raw(case['c'], True))
     mod, c = MODS[case['src']], case['c']
     if case['src'] == 'c07':
         random.seed(4242)        # the random id generators draw from the global PRNG: same draws for both halves
@@ -100,6 +108,42 @@ def observe(case):
     return (a, b)
 
 
+class HookTracer(re_.Tracer):
+    """A tracer that records its calls; the configured one raises from the configured hook."""
+    def __init__(self, idx, log, bad_hook):
+        self.idx, self.log, self.bad = idx, log, bad_hook
+
+    def _hook(self, name):
+        self.log.append([name, self.idx])
+        if self.bad == name:
+            raise RuntimeError('tracer %d fails in %s' % (self.idx, name))
+
+    def on_request_begin(self, trace_context, request):
+        self._hook('begin')
+
+    def on_request_end(self, trace_context, request, response):
+        self._hook('end')
+
+    def on_error(self, trace_context, request, error):
+        self._hook('error')
+
+
+def observe_raw(c, is_async):
+    import pjrpc
+    script = ce.Script([re_.step_of(a, c['req'], k) for k, a in enumerate(c['script'])])
+    log = []
+    tracers = [HookTracer(i, log, c['hook'] if i == c['bad'] else None) for i in range(3)]
+    cl = ce.make_client(is_async, script, tracers=tracers)
+
+    def go():
+        if c['req'] == 'batch':
+            return cl.batch.send(pjrpc.BatchRequest(pjrpc.Request('m', [1], id=1)))
+        return cl.send(pjrpc.Request('m', [1], id=None if c['req'] == 'notification' else 1))
+    o = ce.run(is_async, go)
+    out = ['ok', o[1] is None] if o[0] == 'ok' else ['raise', type(o[1]).__name__, str(o[1])[:60]]
+    return [log, out, len(script.sent)]
+
+
 def raw_same(a, b):
     oa, ob = a['out'], b['out']
     if oa[0] == 'some' and ob[0] == 'some' and len(oa) > 4 and len(ob) > 4:
@@ -110,6 +154,9 @@ def raw_same(a, b):
 def encode(case, obs):
     src, c = case['src'], case['c']
     a, b = obs
+    if src == 'rawtr':
+        from harness.lib.coqterm import cjson
+        return '(C11.PRaw %s %s)' % (cjson(a), cjson(b))
     if src in ('c01', 'c03'):
         cfg = c01.cfg_of(c) if src == 'c01' else c['cfg']
         t, defs = dispenv.cdcase_shared(cfg, a['load'], {'ctx': 7}, a['out'], a['events'])
